@@ -38,6 +38,11 @@ type StressRound struct {
 	// to a holder or about all connections, and holds whether or not such
 	// spellings share a connection.
 	Spell []string `json:"spell,omitempty"`
+	// XClose > 0: about one holder in XClose calls Close() itself on the connection
+	// it was handed, while it holds it (others may hold it too, or be handed it
+	// afterwards). Such a connection is excused from oracle (1); a connection that
+	// nobody but the manager can have closed is not.
+	XClose int `json:"xclose,omitempty"`
 }
 
 func (r *StressRound) addr(a int) string {
@@ -104,6 +109,7 @@ func runStressRound(r *StressRound) (overlaps int64, err error) {
 	}()
 	var firstErr atomic.Value
 	var shared atomic.Int64
+	var xclosed sync.Map // connections closed by a holder itself, recorded before the call
 	holders := make([]atomic.Int64, r.Addrs)
 	var wg sync.WaitGroup
 	start := make(chan struct{})
@@ -130,7 +136,14 @@ func runStressRound(r *StressRound) (overlaps int64, err error) {
 					shared.Add(1)
 				}
 				for k := rnd.Intn(3); k >= 0; k-- {
+					if r.XClose > 0 && rnd.Intn(r.XClose) == 0 {
+						xclosed.Store(cc, true)
+						cc.Close()
+					}
 					if st := cc.GetState(); st == connectivity.Shutdown {
+						if _, byHolder := xclosed.Load(cc); byHolder {
+							break
+						}
 						firstErr.CompareAndSwap(nil, fmt.Errorf("worker %d cycle %d: the connection to %q handed to this holder is in state SHUTDOWN although the holder has not released it", w, i, addr))
 						holders[a].Add(-1)
 						done()
@@ -182,6 +195,11 @@ func TestC16Stress(t *testing.T) {
 			// every other round: some releases are concurrent calls of the same done func
 			r.Dup = 4
 			lb = append(lb, "concurrent-calls-of-the-same-done-func")
+		}
+		if i%4 == 3 {
+			// some holders close the connection they were handed themselves
+			r.XClose = 6
+			lb = append(lb, "outside:holders-close-their-connection-themselves")
 		}
 		switch i % 3 {
 		case 1:
